@@ -7,6 +7,7 @@ from hypothesis import strategies as st
 
 STRS = ["", "a", "b", "ab", "x y", "7"]
 CLASS_ATTRS = ["a", "b", "c", "d"]
+MAPKEYS = ["a", "b", "c", "dd"]
 
 
 class Env:
@@ -23,6 +24,7 @@ class Env:
         self.max_depth = depth_budget
         self.readonly = set()       # names generated statements never assign to (function parameters: their const-ness depends on the call site)
         self.in_rfor = 0
+        self.mapkeys = {}           # map variable -> keys it (probably) holds; only steers generation, the model decides
 
     # ---- helpers
     def i(self, lo, hi):
@@ -86,6 +88,16 @@ class Env:
                 return ["id", self.pick(vars_)]
             return self.lit(t)
         c = self.i(0, 11)
+        if t in ("int", "str") and self.chance(1, 7):
+            ps = self.visible("mpair")
+            if ps:
+                return ["attr", ["id", self.pick(ps)], "second" if t == "int" else "first"]
+            ms = self.visible("map")
+            if ms and t == "int":
+                m = self.pick(ms)
+                known = sorted(self.mapkeys.get(m, ()))
+                key = self.pick(known) if known and self.chance(9, 10) else self.pick(MAPKEYS)
+                return self.pick([["m", ["id", m], "at", [["s", key]]], ["idx", ["id", m], ["s", key]], ["size", ["id", m]]])
         if t == "int":
             if c <= 1:
                 return self.lit(t)
@@ -178,8 +190,10 @@ class Env:
 
     def stmt(self, d):
         """-> list of statements (usually one)"""
-        c = self.i(0, 31)
+        c = self.i(0, 35)
         t = self.pick(["int", "int", "int", "bool", "str"])
+        if c >= 32:
+            return self.map_stmt(d)
         if c >= 30:
             if d <= 0 or self.in_rfor:
                 return [["print", self.expr(t)]]
@@ -333,6 +347,60 @@ class Env:
         if d > 0 and self.chance(1, 4):
             return [["block", self.block(d - 1, 3)]]
         return [["print", self.expr(t)]]
+
+    def map_stmt(self, d):
+        """string-keyed maps of ints: literals (with repeated keys), insertion through [], at(), count, erase, size, to_string, ranged-for over <key, value> pairs"""
+        ms = self.visible("map")
+        if not ms or self.chance(1, 4):
+            name = self.fresh("m")
+            keys = [self.pick(MAPKEYS) for _ in range(self.i(0, 3))]
+            lit = ["map", [[k, self.expr("int", 1)] for k in keys]]
+            self.scopes[-1][name] = "map"
+            self.mapkeys[name] = set(keys)
+            return [["var", name, lit, "var"]]
+        m = self.pick(ms)
+        known = sorted(self.mapkeys.get(m, ()))
+        key = self.pick(known) if known and self.chance(7, 8) else self.pick(MAPKEYS)
+        k = self.i(0, 10)
+        if k <= 2:
+            if self.in_rfor:
+                # no structural change while a ranged-for may be walking the map: at() never inserts
+                return [["assign", ["m", ["id", m], "at", [["s", key]]], self.pick(["=", "+=", "-="]), self.expr("int", 2)]]
+            if key in known and self.chance(1, 2):
+                return [["assign", ["idx", ["id", m], ["s", key]], self.pick(["+=", "*=", "="]), self.expr("int", 2)]]
+            self.mapkeys.setdefault(m, set()).add(key)
+            return [["assign", ["idx", ["id", m], ["s", key]], "=", self.expr("int", 2)]]
+        if k == 3:
+            return [["print", ["m", ["id", m], "at", [["s", key]]]]]
+        if k == 4:
+            return [["print", ["m", ["id", m], "count", [["s", self.pick(MAPKEYS)]]]], ["print", ["m", ["id", m], "empty", []]]]
+        if k == 5:
+            return [["print", ["id", m]], ["print", ["size", ["id", m]]]]
+        if k == 6 and not self.in_rfor:
+            self.mapkeys.get(m, set()).discard(key)
+            return [["expr", ["m", ["id", m], "erase", [["s", key]]]], ["print", ["size", ["id", m]]]]
+        if k == 7 and not self.in_rfor:
+            # a structural copy: inserting into / erasing from the copy leaves the original alone
+            name = self.fresh("m")
+            self.scopes[-1][name] = "map"
+            self.mapkeys[name] = set(known)
+            nk = self.pick(MAPKEYS)
+            return [["var", name, ["id", m], "var"], ["expr", ["m", ["id", name], "erase", [["s", nk]]]], ["print", ["size", ["id", m]]], ["print", ["size", ["id", name]]]]
+        if d > 0:
+            self.scopes.append({})
+            x = self.fresh("p")
+            self.scopes[-1][x] = "mpair"
+            self.in_loop += 1
+            self.in_rfor += 1
+            body = [["print", ["bin", "+", ["attr", ["id", x], "first"], ["tostr", ["attr", ["id", x], "second"]]]]]
+            if self.chance(1, 2):
+                body.append(["assign", ["attr", ["id", x], "second"], self.pick(["+=", "=", "*="]), self.expr("int", 1)])
+            body += self.loop_block(d - 1)
+            self.in_rfor -= 1
+            self.in_loop -= 1
+            self.scopes.pop()
+            return [["rfor", x, ["id", m], body], ["print", ["id", m]]]
+        return [["print", ["size", ["id", m]]]]
 
     def closure_loop(self, d):
         """closures created in a loop capture the loop variable and are called in a later pass / after the loop"""
@@ -488,7 +556,7 @@ def programs(draw, with_faults=True):
     for _ in range(env.i(2, 10)):
         main += env.stmt(3)
     names = []
-    for t in ("int", "bool", "str", "vec"):
+    for t in ("int", "bool", "str", "vec", "map"):
         names += [n for n in env.visible(t) if n in env.scopes[0]]
     names = sorted(set(names))[:8]
     result = ["vec", [["id", n] for n in names]]
